@@ -5,7 +5,10 @@ from harness.drivers import fuse
 
 def run(ck):
     q = ck.tier == "quick"
-    progs = fuse.fuse_programs(ck.seed, 240 if q else 4000)
+    from harness import gen
+    tids = gen.Tids()
+    progs = fuse.fuse_programs(ck.seed, 240 if q else 4000, tids=tids)
+    progs += fuse.single_group_programs(ck.seed, 80 if q else 1500, tids=tids)
     ck.cov["rule"] = ("random sparse abelian/fermionic arrays of rank 2-4, 1-2 disjoint groups (single-axis, permuted, "
                       "non-adjacent, nested), both strategies, cache off/one/cold; relocation read back through the "
                       "result's own sub-index table")
